@@ -13,7 +13,7 @@ tfd = tfp.distributions
 
 LEVEL = "translation_validation"
 BOUNDS = {"distributions": "44 of the 46 exported TFP wrappers (beta_quotient and skellam are outside the claim), one parameter template each in the valid domain (scalars, or length-2/3 vectors for the multivariate ones); parameters and the value are symbolic around the template shapes",
-          "operations": "assess, importance(full) weight+score, update(v->v') weight, update with a flag-masked constraint and changed parameters, simulate score vs log_prob of the sampled value, keyword vs positional invocation, sample dtype"}
+          "batch shapes": "scalar distributions also with parameters and value of batch shape (2,) (quick: 10 distributions, thorough: all scalar ones)", "operations": "assess, importance(full) weight+score, update(v->v') weight, update with a flag-masked constraint and changed parameters, simulate score vs log_prob of the sampled value, keyword vs positional invocation, sample dtype"}
 ASSUMPTIONS = ["both sides trace the same TFP log_prob code, so special functions (lgamma, bessel, cholesky, ...) are the same uninterpreted symbols on both sides; what is decided is GenJAX's wrapper (summing, kwargs path, implicit-logit wrapper, masks)",
                "TFP samplers that cannot be encoded (rejection loops) are uninterpreted functions of (key, parameters)"]
 TOO_LARGE = {"beta_quotient", "skellam"}  # log_prob is a numerical quadrature: 328 000 jaxpr equations encoded in 270 s, z3 'unknown' after 60 s
@@ -176,6 +176,34 @@ def obligations(tier, seed):
             return (jnp.int32(x.dtype == d.dtype), jnp.int32(tuple(x.shape) == tuple(d.batch_shape) + tuple(d.event_shape))), (jnp.int32(1), jnp.int32(1))
 
         obs.append(Ob(f"C24/sample-dtype-shape/{nm}", dt, (gfi.KEY, params), selfcheck=False, timeout_s=20, note="sample dtype == the TFP distribution's dtype (flip -> bool); sample shape == batch+event shape"))
+    # ---- batch shapes: parameters (and the value) with a leading batch axis of 2: scores are SUMMED log_probs
+    batched = ["normal", "gamma", "beta", "bernoulli", "exponential", "laplace", "uniform", "flip", "poisson", "cauchy"] if tier == "quick" else [n for n in exported if jnp.ndim(T[n][3]) == 0 and n not in FIXED]
+    for nm in batched:
+        if nm not in exported:
+            continue
+        ctor, params, kws, v, v2 = T[nm]
+        g = getattr(genjax, nm)
+        two = lambda x, d: jnp.stack([x, x + d]) if jnp.issubdtype(jnp.asarray(x).dtype, jnp.floating) else jnp.stack([x, x])  # noqa: E731
+        bp = tuple(two(x, 0.125) for x in params)
+        bv, bv2 = two(v, 0.0625), two(v2, 0.0625)
+
+        def bdens(key, p, val, val2, g=g, ctor=ctor):
+            lpv = lambda x: jnp.sum(ctor(*p).log_prob(x))  # noqa: E731
+            sc, rv = g.assess(C.v(val), p)
+            tr, w = g.importance(key, C.v(val), p)
+            tr2, w2, rd, bwd = tr.update(key, C.v(val2))
+            trs = g.simulate(key, p)
+            return (sc, tr.get_score(), w, tr2.get_score(), w2, trs.get_score(), jnp.int32(tuple(trs.get_retval().shape) == (2,))), (lpv(val), lpv(val), lpv(val), lpv(val2), lpv(val2) - lpv(val), lpv(trs.get_retval()), jnp.int32(1))
+
+        def BA(key, p, val, val2, params=bp, bv=bv, bv2=bv2):
+            out = []
+            for sp, tp in zip(p, params):
+                out += box(sp, tp)
+            out += box(val, bv) + box(val2, bv2)
+            return out
+
+        obs.append(Ob(f"C24/batch-shape[2]/{nm}", bdens, (gfi.KEY, bp, bv, bv2), assume=BA, selfcheck=False, timeout_s=20,
+                      note="parameters and value with batch shape (2,): assess / importance / update / simulate scores and weights == the SUM over the batch of tfd log_prob; the sample has the batch shape"))
     return obs
 
 
